@@ -361,21 +361,18 @@ theorem pollLoop_upd (now : Nat) : ∀ (os : List Nat) (s : Store), Upd now s (p
 
 theorem pollIndex_upd (s : Store) (acct now : Nat) (add : List Nat) : Upd now s (pollIndex s acct now add).1 := by
   unfold pollIndex
-  split
-  · exact Upd.refl _ _
-  · simp only
-    have u := pollLoop_upd now ((indexOf s acct).getD []) s
-    cases h : pollLoop s now ((indexOf s acct).getD []) with
-    | mk s1 r =>
-      rw [h] at u
-      cases r with
-      | none => exact u
-      | some keep =>
-        simp only
-        split
-        · exact u
-        · exact u.trans (upd_of_eq now _ _ rfl rfl rfl rfl)
-
+  simp only
+  have u := pollLoop_upd now ((indexOf s acct).getD []) s
+  cases h : pollLoop s now ((indexOf s acct).getD []) with
+  | mk s1 r =>
+    rw [h] at u
+    cases r with
+    | none => exact u
+    | some keep =>
+      simp only
+      split
+      · exact u
+      · exact u.trans (upd_of_eq now _ _ rfl rfl rfl rfl)
 
 /-! ## what one request may do to the objects that existed before it -/
 
